@@ -41,7 +41,12 @@ def run(pid, tier, seed, t0):
         if st['kind'] == 'mc':
             cfg = st['cfg'][tier]
             logp, s = core.mc(st['module'], cfg, tag + '.mc')
-            n = core.dump_cases(logp, st['comp'], st['name'] + '-', cases, limit=st.get('limit', {}).get(tier))
+            if st.get('tree'):
+                nedges, n = core.dump_tree_cases(logp, st['comp'], st['name'] + '-', cases,
+                                                 per_episode=st.get('per_episode', 3000), extra=st.get('extra'))
+                info['edges_replayed'] = nedges
+            else:
+                n = core.dump_cases(logp, st['comp'], st['name'] + '-', cases, limit=st.get('limit', {}).get(tier))
             if not os.environ.get('VERIF_KEEP'):
                 os.remove(logp)
             cov['states'] += s['distinct']
